@@ -171,10 +171,15 @@ func (p *packageParse) completePack(msg *Message) (*Message, bool) {
 func (p *packageParse) add(id uint16, header *jt808.Header) {
 	p.subcontractingRecord[id] = make([][]byte, header.SubPackageSum)
 	now := time.Now()
+	initHeader := *header // 补传请求会改写并编码这个头 不能和已经交给回调和write协程的第一包消息共用
+	if header.Property != nil {
+		property := *header.Property
+		initHeader.Property = &property
+	}
 	p.timeoutRecord[id] = &packageComplete{
 		createTime: now,
 		updateTime: now,
-		initHeader: header,
+		initHeader: &initHeader,
 	}
 }
 
